@@ -218,6 +218,13 @@ def loop_exit_programs():
             'inner_returning_loop': [While(c3(), [OpAssign(X, '-', Lit(INT, 1, keep=True)), If(c1(), [Continue()]), r(7)]), m()],
             'return_in_nested_if': [If(c1(), [If(c3(), [r(3)]), m(), Continue()]), r()],
             'break_in_else_return': [If(c1(), [r(1)], [Break()])],
+            # an earlier conditional exit and a later statement that never returns, in ONE statement list
+            'break_then_win': [If(c2(), [m(), Break()]), ExprStmt(Call('all_is_win', []))],
+            'break_then_broken': [If(c1(), [Break()]), m(), ExprStmt(Call('all_is_broken', []))],
+            'return_then_win': [If(c1(), [r(4)]), ExprStmt(Call('all_is_win', []))],
+            'try_break_then_defeat': [Try([If(c1(), [m(), Break()]), ExprStmt(Call('!is_defeat', []))], 'stop', [m()])],
+            'try_continue_then_defeat': [Try([If(c1(), [Continue()]), If(c2(), [Break()]), ExprStmt(Call('!is_defeat', []))], 'stop', [m()])],
+            'try_return_then_defeat': [Try([If(c1(), [r(6)]), ExprStmt(Call('!is_defeat', []))], 'undo', [m()])],
         }
     dec = lambda: OpAssign(X, '-', Lit(INT, 1, keep=True))      # noqa: E731
     for ret in (EMPTY, INT):
@@ -225,7 +232,9 @@ def loop_exit_programs():
             for loop in ('while_cond', 'while_true', 'for_counted', 'for_ever', 'while_const_false'):
                 for after in ('none', 'stmts'):
                     for flavor in ('', '@'):
-                        if flavor == '@' and (after == 'none' or loop in ('for_ever',)):
+                        if shape.startswith('try_') and flavor != '@':
+                            continue        # try blocks need a you-function
+                        if flavor == '@' and not shape.startswith('try_') and (after == 'none' or loop in ('for_ever',)):
                             continue        # thin the product: flavour matters little here
                         body = [dec()] + shapes(ret)[shape]
                         if loop == 'while_cond':
